@@ -510,3 +510,25 @@ def isotxs_rewrite_of_what_was_read_is_the_same_file(ng: int, niso: int, ichist:
     assert st2.nwrites() == st.nwrites(), "same number of records"
     for k in range(st.nwrites()):
         assert st2.written(k) == st.written(k), "same bytes"
+
+
+@lemma(gen={"ichist": (0, 3), "ichi": (0, 3), "x0": F32, "w0": F32}, stubs=STUBS, overrides=OVERRIDES)
+def isotxs_chi_matrix_records_are_refused_not_skipped(ichist: int, ichi: int, x0: float, w0: float):
+    """armi has no body for the file-wide (3D) and isotope (6D) chi MATRIX records: a library that announces one
+    (ICHIST > 1 or ICHI > 1) is refused when writing (OSError) - the record is never silently left out of the file; every
+    other header (ICHIST, ICHI in 0..1, symbolic) is written.  1 group, 1 non-fissile isotope."""
+    assume(0 <= ichist and 0 <= ichi)
+    lib, vals = xs_library(False, 1, 1, 0, 0, 0, [False, False], [x0] * 7, [[w0] * 32, [w0] * 32])
+    lib.isotxsMetadata["fileWideChiFlag"] = ichist
+    lib.isotxsMetadata["chi"] = np.array([1.0])
+    lib[LABELS[0]].isotxsMetadata["chiFlag"] = ichi
+    lib[LABELS[0]].micros.chi = np.array([1.0])
+    st = memstream()
+    try:
+        xs_io(False, "wb", st, lib).readWrite()
+        refused = False
+    except OSError:
+        refused = True
+    assert refused == (ichist > 1 or ichi > 1), "refused iff a chi matrix record is announced"
+    if not refused:
+        assert st.nwrites() == 3 * 5
